@@ -1,1 +1,7 @@
-import Hive
+import Proofs.Lists
+import Proofs.SimOps
+import Proofs.WF
+import Proofs.Frame
+import Proofs.Lift
+import Proofs.Run
+import Proofs.C02
